@@ -159,6 +159,22 @@ Definition compose_out_eq (a : outcome (N * bytes)) (b : outcome (N * bytes)) : 
   | _, _ => false
   end.
 
+(* What C09 lets an implementation of Compose answer for text rs, against which the observation of the running code is
+   compared (the model [compose] above is one such implementation: it refuses by the splitter's estimate, as the code
+   does today; one that refuses by the encoded length is another):
+     stored (label, octets)  - the label is the detector's and the octets are its encoder's output for the text;
+     refusal for size        - only if the text does not fit 140 octets by the estimate or by its encoded length;
+     encoder error           - only if the detected coding's encoder rejects the text. *)
+Definition compose_obs_ok (rs : list N) (obs : outcome (N * bytes)) : bool :=
+  let l := best rs in
+  match obs, encode_l l rs with
+  | Ok (d, bs), Ok bs' => (d =? dc_of_label l) && beq_bytes bs bs'
+  | Err ESize, e => (140 <? splitter_len l rs) || match e with Ok bs' => 140 <? N.of_nat (List.length bs') | _ => false end
+  | Err EText, Err _ => true
+  | Panic, Panic => true
+  | _, _ => false
+  end.
+
 (* --- Compose on a reused ShortMessage value: the state is (data_coding, octets);
    a successful Compose replaces both, a failing one leaves the value alone.
    status: 0 composed, 1 does not fit, 2 encoder error, 3 panic *)
